@@ -102,12 +102,21 @@ pub fn parse_line(line: &str) -> (Vec<String>, BTreeMap<String, String>) {
     (verbs, m)
 }
 
+/// where the most recent panic was raised (`<dir>/<file>:<line>`), for reports that must tell a panic inside an
+/// external library from one inside zarrs
+pub static LAST_PANIC: std::sync::Mutex<String> = std::sync::Mutex::new(String::new());
+pub fn last_panic_location() -> String { LAST_PANIC.lock().map(|s| s.clone()).unwrap_or_default() }
+
 pub fn silence_panics() {
-    if std::env::var("VERIF_PANIC_MSG").is_ok() {
-        std::panic::set_hook(Box::new(|info| { eprintln!("PANIC: {}", info); }));
-    } else {
-        std::panic::set_hook(Box::new(|_| {}));
-    }
+    let verbose = std::env::var("VERIF_PANIC_MSG").is_ok();
+    std::panic::set_hook(Box::new(move |info| {
+        if let Some(l) = info.location() {
+            let parts: Vec<&str> = l.file().split('/').collect();
+            let short = parts[parts.len().saturating_sub(3)..].join("/");
+            if let Ok(mut s) = LAST_PANIC.lock() { *s = format!("{}:{}", short, l.line()); }
+        }
+        if verbose { eprintln!("PANIC: {}", info); }
+    }));
 }
 
 /// run `f`, mapping a panic to the outcome `panic`
